@@ -177,8 +177,9 @@ impl LogReader {
         T: DeserializeOwned,
     {
         // We assume that the caller always provide a valid data entry so we can expand the Mmap
-        // and try reading with the `len` and `pos`.
-        if pos >= self.mmap.len() as u64 {
+        // and try reading with the `len` and `pos`. The file may have been mapped while an entry
+        // was only partly written, so we remap whenever the entry does not END within the map.
+        if pos + len > self.mmap.len() as u64 {
             self.mmap = memmap2::MmapOptions::new().map(&self.file)?;
         }
         let start = pos as usize;
@@ -197,8 +198,9 @@ impl LogReader {
         W: Write,
     {
         // We assume that the caller always provide a valid data entry so we can expand the Mmap
-        // and try reading with the `len` and `pos`.
-        if pos >= self.mmap.len() as u64 {
+        // and try reading with the `len` and `pos`. The file may have been mapped while an entry
+        // was only partly written, so we remap whenever the entry does not END within the map.
+        if pos + len > self.mmap.len() as u64 {
             self.mmap = memmap2::MmapOptions::new().map(&self.file)?;
         }
         let start = pos as usize;
